@@ -74,6 +74,9 @@ func coqKVs(kvs []KV) string {
 }
 
 func coqFlow(f Flow) string {
+	if f.Kind == 0 && len(f.Methods)+len(f.Headers)+len(f.Query)+len(f.Status) == 0 && plain(f.URL) {
+		return "(uf " + c.Z(int64(f.ID)) + ` "` + f.URL + `")`
+	}
 	st := make([]int64, len(f.Status))
 	for i, s := range f.Status {
 		st[i] = int64(s)
@@ -85,7 +88,24 @@ func coqFlow(f Flow) string {
 	}, " ") + ")"
 }
 
+func plain(s string) bool {
+	for i := 0; i < len(s); i++ {
+		if s[i] < 32 || s[i] > 126 || s[i] == '"' {
+			return false
+		}
+	}
+	return true
+}
+
 func coqTxn(t Txn) string {
+	if t.Method == "GET" && len(t.Headers)+len(t.Query) == 0 && plain(t.URL) {
+		if !t.Resp && t.Status == 0 {
+			return `(rq "` + t.URL + `")`
+		}
+		if t.Resp && t.Status == 200 {
+			return `(rs "` + t.URL + `")`
+		}
+	}
 	return "(mkTxn " + strings.Join([]string{
 		c.B(t.Resp), str(t.URL), str(t.Method), coqKVs(t.Headers), coqKVs(t.Query), c.Z(int64(t.Status)),
 	}, " ") + ")"
@@ -100,7 +120,7 @@ func coqCase(k *Case) string {
 			for i, s := range o.Selected {
 				sel[i] = int64(s)
 			}
-			return c.Tuple(coqTxn(o.Txn), c.ZList(sel))
+			return "(ob " + coqTxn(o.Txn) + " " + c.ZList(sel) + ")"
 		}),
 	)
 }
